@@ -127,12 +127,18 @@ class Program(object):
                         break
 
         address = 0
+        laid_out = False
         for index, statement in enumerate(self.statements):
+            if statement.instruction.is_origin and laid_out:
+                # the image is one contiguous block loaded at one origin
+                raise TranslationError("ORG must come before the first label and the first byte of the program", statement)
             try:
                 address = statement.set_address(address)
             except ValueTypeError:
                 raise TranslationError("address ${:X} is outside the 64K address space".format(address), statement)
             address += statement.code_pkg.size
+            if statement.code_pkg.size > 0 or (statement.label and not statement.instruction.is_pseudo_define):
+                laid_out = True
 
         for index, statement in enumerate(self.statements):
             statement.fix_addresses(self.statements, index)
